@@ -11,7 +11,7 @@ for d in sorted(glob.glob(os.path.join(HERE, "seeded", "*C*-*"))):
         meta = json.load(open(os.path.join(d, "meta.json")))
     except Exception as e:
         continue
-    checks = open(os.path.join(d, "checks.txt")).read() if os.path.exists(os.path.join(d, "checks.txt")) else ""
+    checks = open(os.path.join(d, "checks.txt"), errors="replace").read() if os.path.exists(os.path.join(d, "checks.txt")) else ""
     fired = re.findall(r"^FIRES (C\d\d): (.*)$", checks, re.M)
     ids = [f[0] for f in fired]
     rule = ""
@@ -44,6 +44,15 @@ hdr = ["Each of the 20 properties was given to a fresh sub-agent that saw only t
        "all 40 are reported by their own property's check. The same strengthening found two more genuine",
        "defects on the unchanged tree (C16.X6, C14.N4 — §6). The sub-agents also reported behaviours of",
        "the unchanged tree that no static rule here decides (§6, last paragraph).",
+       "",
+       "**Second round** (rows `r2-…`): after that strengthening, 20 new sub-agents were asked for two more",
+       "changes each, steered away from plain guard removals (wrong accessor with the same value in all",
+       "tests, state shared between calls, caches, early returns on rare branches, conversions that only",
+       "matter for large values). First pass on these 40 unseen changes: 28 reported by their own",
+       "property's check, 5 more only by another property's check, 7 by none — i.e. 33 of 40 by some",
+       "check (round one: 27 of 40). After a second strengthening pass 38 are reported by their own",
+       "property's check, 1 only by another (r2-C14-2), and 1 by none (r2-C03-2, extent arithmetic —",
+       "listed under C03 'Not decided').",
        "",
        "| change | what it does | own property's check fires | other checks that fire | note |",
        "|--------|--------------|---------------------------|------------------------|------|"]
